@@ -298,6 +298,16 @@ def run_series(case, ctx):
                         break
             if bad:
                 ctx.violation(f'series.{name}|value|{pairing}', **info, label=bad[0], got=bad[1], expected=bad[2])
+            elif name not in ('eq', 'ne'):
+                # the hashable variant of either operand (a Series in every respect but == / !=): the same result
+                for vname, x_, y_ in (('right-SeriesHE', a, sf.SeriesHE(b.values, index=b.index, name=b.name)), ('left-SeriesHE', sf.SeriesHE(a.values, index=a.index, name=a.name), b)):
+                    ctx.transition()
+                    try:
+                        r2 = f(x_, y_)
+                        if not isinstance(r2, sf.Series) or r2.index.values.tolist() != rl or not all(elem_eq(g1, g2) or (is_missing(g1) and is_missing(g2)) for g1, g2 in zip(r2.values, r.values)):
+                            ctx.violation(f'series.{name}|{vname}|differs-from-plain-series|{pairing}', **info, got=repr(r2.values.tolist() if hasattr(r2, 'values') else r2)[:200], expected=repr(r.values.tolist())[:200])
+                    except Exception as e:
+                        ctx.violation(f'series.{name}|{vname}|raises|{type(e).__name__}|{pairing}', **info, error=repr(e))
                 continue
             if la == lb and len(la):
                 with np.errstate(all='ignore'):
@@ -375,6 +385,23 @@ def run_frames(case, ctx):
                         if columns_of(r)[j].dtype != ed:
                             ctx.violation(f'frame.{name}|equal-indices-dtype', **info, column=c, got=str(columns_of(r)[j].dtype), expected=str(ed))
                             break
+        # class variants of the operands (hashable, grow-only): the same result as for plain Frames, for one arithmetic and one comparison operator
+        for name, f in (('add', op.add), ('lt', op.lt)):
+            try:
+                r = f(a, b)
+            except Exception:
+                continue
+            base_cells = frame_cells(r)
+            for vname, x_, y_ in (('right-FrameHE', a, b.to_frame_he()), ('left-FrameHE', a.to_frame_he(), b), ('right-FrameGO', a, b.to_frame_go()), ('left-FrameGO', a.to_frame_go(), b)):
+                ctx.transition()
+                try:
+                    r2 = f(x_, y_)
+                    g2 = frame_cells(r2)
+                    same_ = g2[1:] == base_cells[1:] and all(elem_eq(g2[0][k], v) or (is_missing(g2[0][k]) and is_missing(v)) for k, v in base_cells[0].items())
+                    if not same_:
+                        ctx.violation(f'frame.{name}|{vname}|differs-from-plain-frames', op=name, a=(ra, ca), b=(rb, cb), layout=li, got=repr(g2[1:])[:200], expected=repr(base_cells[1:])[:200])
+                except Exception as e:
+                    ctx.violation(f'frame.{name}|{vname}|raises|{type(e).__name__}', op=name, a=(ra, ca), b=(rb, cb), layout=li, error=repr(e))
         ctx.outcome('frames')
     ctx.sample({'family': 'frames', 'layout': li, 'label_sequences': len(seqs), 'shard': sh}, limit=1)
 
